@@ -388,7 +388,7 @@ func init() {
 	register(&Check{
 		ID: "C14",
 		Expl: "Decides placement and ownership, not arithmetic: (E6.as4-placement) the AS4_PATH/AS4_AGGREGATOR producers run under the 2-octet-peer flag before serialisation, and the reconstructing consumers run on every path of a received UPDATE before the server sees it; (E2.send-side-copy) the send-side conversion edits a private copy of the attribute list; " +
-			"(E2.retained-buffer) segment buffers handed to constructors that keep them are allocated per iteration (no shared backing array between segments); (E6.as-trans) AS_TRANS is substituted exactly above 65535 and the raw 2-octet AS of an OPEN is only read through the 4-octet-aware helper.",
+			"(E2.retained-buffer) segment buffers handed to constructors that keep them are allocated per iteration (no shared backing array between segments); (E6.as-trans) AS_TRANS is substituted exactly above 65535 and the raw 2-octet AS of an OPEN is only read through the 4-octet-aware helper. Also: (E4.confed-pair) segment-type switches name both confederation types; (E2.as4path-width-independent) the AS4_PATH codec never forwards the session options to a reader of Use2ByteAS.",
 		Not: "Segment keep-count/merge arithmetic, 255-member boundaries, and the round-trip equality of AS_PATH/AGGREGATOR are value-level and not decided.",
 		Run: func(c *Ctx) {
 			c.ruleAS4Placement()
